@@ -48,6 +48,10 @@ def value_kinds(T, i):
         ("chain-to-global", True, [f"n{i} :: GN{i};"], [f"GN{i} : {T} : 3;"], f"n{i}"),
         ("chain-to-mutable", False, [f"a{i} : {T} = 3;", f"n{i} :: a{i};"], [], f"n{i}"),
         ("chain-to-call", False, [f"a{i} : {T} : {call};", f"n{i} :: a{i};"], [], f"n{i}"),
+        ("mut-local-uninitialised", False, [f"n{i} : {T};"], [], f"n{i}"),
+        ("imported-global-via-mut-local", False, [f"om{i} := o;"], [], f"om{i}.N" if T == "usize" else f"om{i}.D"),
+        ("imported-global-via-imm-local", True, [f"oi{i} :: o;"], [], f"oi{i}.N" if T == "usize" else f"oi{i}.D"),
+        ("mut-local-reassigned", False, [f"n{i} : {T} = 1;", f"n{i} = 3;"], [], f"n{i}"),
     ]
 
 
@@ -65,6 +69,9 @@ def type_kinds(i):
         ("chain-2", True, [f"A{i} :: i32;", f"T{i} :: A{i};"], [], f"T{i}"),
         ("chain-to-mutable", False, [f"A{i} := i32;", f"T{i} :: A{i};"], [], f"T{i}"),
         ("struct-literal-type", True, [f"T{i} :: struct {{ q: i32 }};"], [], f"T{i}"),
+        ("mut-local-uninitialised", False, [f"T{i} : type;"], [], f"T{i}"),
+        ("imported-global-via-mut-local", False, [f"om{i} := o;"], [], f"om{i}.T"),
+        ("imported-global-via-imm-local", True, [f"oi{i} :: o;"], [], f"oi{i}.T"),
     ]
 
 
@@ -81,12 +88,34 @@ def all_specs(thorough):
     # comptime parameter as the const value in each position (inside a generic function)
     for pos in ("array-length", "comptime-arg", "annotation"):
         specs.append({"pos": pos, "kind": "comptime-param", "after": False})
+        # several comptime parameters mixed with run-time ones: each use must see its own argument
+        for shape in range(4):
+            specs.append({"pos": pos, "kind": "comptime-param-mixed", "after": False, "shape": shape})
     return specs
 
 
 def make_cell(i, spec):
     pos, kind, after = spec["pos"], spec["kind"], spec["after"]
     decls, decls_after, body = [], [], []
+    if kind == "comptime-param-mixed":
+        shape = spec["shape"]
+        # parameter lists: r = run-time parameter, a/b = comptime parameters; the body uses a (and b)
+        params = [["r", "a", "b"], ["a", "r", "b"], ["b", "r", "a"], ["r", "b", "r2", "a"]][shape]
+        vals = {"r": "1", "r2": "2"}
+        if pos == "annotation":
+            sig = ", ".join(f"comptime {p_}: type" if p_ in "ab" else f"{p_}: i32" for p_ in params)
+            vals.update({"a": "[3]u8", "b": "[7]u8"})
+            decls.append(f"gen{i} :: ({sig}) -> usize {{ va : a; vb : b; va.len * 10 + vb.len }}")
+        elif pos == "array-length":
+            sig = ", ".join(f"comptime {p_}: usize" if p_ in "ab" else f"{p_}: i32" for p_ in params)
+            vals.update({"a": "3", "b": "7"})
+            decls.append(f"gen{i} :: ({sig}) -> usize {{ va : [a]u8; vb : [b]u8; va.len * 10 + vb.len }}")
+        else:
+            sig = ", ".join(f"comptime {p_}: usize" if p_ in "ab" else f"{p_}: i32" for p_ in params)
+            vals.update({"a": "3", "b": "7"})
+            decls.append(f"gen{i} :: ({sig}) -> usize {{ cta(a) * 10 + cta(b) }}")
+        body.append(f'printf("%ld\\n", i64.(gen{i}({", ".join(vals[p_] for p_ in params)})));')
+        return {"decls": decls, "body": body, "expect": "either", "out": "37\n", "key": f"C15:{pos}:{kind}", "desc": f"comptime parameters ({', '.join(params)}) used as {pos}", "spec": spec, "cls": f"{pos}.const"}
     if kind == "comptime-param":
         if pos == "array-length":
             decls.append(f"gen{i} :: (comptime n: usize) -> usize {{ a : [n]u8; a.len }}")
